@@ -30,7 +30,8 @@ from bounded.common import fail
 
 R, W = C.R, C.W
 
-BOUND = ('ordered rule lists (registration order matters for the tree): every rule of the exhaustive segment universe '
+BOUND = ('[in every case a route hook spelled with other wildcard names is installed on the first wildcard rule, and taken away again in half of the cases] '
+         'ordered rule lists (registration order matters for the tree): every rule of the exhaustive segment universe '
          '(17 segment forms: literals a/ab/b, :x, anonymous, int, anonymous int, float, re([ab]+), re(a*), path, a<x>, a<x>b, '
          '<x>b, <n:int><x>, a<n>-<m>, <p:path>b; <=3 segments; the 3-segment ones in quick with one flavour and fewer '
          'paths) and of the 68-rule hand pool as a singleton in each of the 3 syntax flavours; every ordered pair of the '
@@ -625,6 +626,10 @@ def run_case(case):
             renamed = [sg if S.is_lit(sg) else [sg[0], (None if sg[1] is None else 'hk' + str(sg[1]))] + list(sg[2:]) for sg in segs]
             try:
                 app.on_route(render(renamed, fl), lambda p: None)
+                if (len(rules) + idx) % 2 == 1:
+                    # ... and in half of the cases taken away again: removing a hook must leave the route, its wildcard names and
+                    # its filters as they were
+                    app.remove_route_hook(render(renamed, fl))
             except Exception:  # noqa - a refused hook changes nothing
                 pass
         # lookups interleaved with registration: whatever a lookup leaves behind (e.g. a cache) must not change later answers
